@@ -153,3 +153,36 @@ def expr_source_name(e):
     if t == "call" and len(e[2]) == 1 and (def_path(e[1]) or "").endswith("::clone"):
         return expr_source_name(e[2][0])
     return None
+
+
+def for_loops(n):
+    """(iter_expr, pattern, body) of every `for pat in iter { body }` under n (HIR desugaring)"""
+    for x in walk(n):
+        if tag(x) == "match" and x[3] == "ForLoopDesugar":
+            it = x[1]
+            if tag(it) == "call" and it[2]:
+                it = it[2][0]
+            try:
+                loop = x[2][0][2]
+                blk = loop[2]
+                inner = blk[1][0] if blk[1] else blk[2]
+                some = [a for a in inner[2] if pat_variants(a[0]) and pat_variants(a[0])[0].endswith("::Some")]
+                pat = some[0][0][2][0] if tag(some[0][0]) == "ts" else some[0][0]
+                body = some[0][2]
+                yield it, pat, body
+            except Exception:
+                continue
+
+
+def pat_variants_deep(p):
+    """all variant/const paths anywhere inside a pattern"""
+    out = []
+    for x in walk(p):
+        t = tag(x)
+        if t == "path":
+            d = def_path(x)
+            if d:
+                out.append(d)
+        elif t in ("ts", "struct") and x[1][0] in ("def", "selfctor"):
+            out.append(x[1][-1])
+    return out
